@@ -99,6 +99,11 @@ def extra_commands(seed, prog):
             'cycle_points': [rng.choice(['*', prog.pstr(pts[-1])])],
             'namespaces': [rng.choice(names + ['root'])],
             'settings': [{'environment': {'FOO': str(rng.randint(0, 9))}}]}})
+    if rng.random() < 0.4:
+        # a force-satisfied prerequisite (its kind must survive the restart)
+        ids = [f'{prog.pstr(rng.choice(pts))}/{rng.choice(names)}']
+        cmds.append({'at_time': 0.0, 'name': 'set', 'kwargs': {
+            'tasks': ids, 'flow': [], 'prerequisites': ['all']}})
     # always release everything later so that both runs can finish
     cmds.append({'at_time': 60.0, 'name': 'release_hold_point', 'kwargs': {}})
     return cmds
@@ -240,8 +245,14 @@ def run(params):
     c0 = mkcase()
     xc = extra_commands(seed, c0.prog)
     manual = set()
+    for c_ in xc:
+        if c_['name'] == 'set':
+            for ident in c_['kwargs']['tasks']:
+                cyc_, nm_ = ident.split('/')
+                manual.add((nm_, c0.prog.ppoint(cyc_)))
     base = run_case(c0, monitors=[
-        LaunchMonitor(), InvariantMonitor(commands=bool(xc)),
+        LaunchMonitor(manual=manual),
+        InvariantMonitor(manual=manual, commands=bool(xc)),
         CommandDriver([dict(c) for c in xc]), FinalDbMonitor()])
     if base.error:
         return {'error': 'base run: ' + base.error, 'violations': [], 'stats': {}}
@@ -251,7 +262,8 @@ def run(params):
     stops = params.get('stops') or stop_plan(seed, base.iterations)
     sr = StopRestart(stops)
     res = run_case(c1, monitors=[
-        LaunchMonitor(), InvariantMonitor(commands=True),
+        LaunchMonitor(manual=manual),
+        InvariantMonitor(manual=manual, commands=True),
         CommandDriver([dict(c) for c in xc] + [dict(s) for s in stops]),
         sr, FinalDbMonitor()], lifecycle=sr.lifecycle)
     if res.error:
